@@ -71,3 +71,19 @@ def replay_unencodable(msg, enc):
     if bad:
         return True, 'emitted, but %s read back as %r' % (bad[0], d.get(bad[0])), 'C02/unencodable'
     return False, 'ok', None
+
+
+def replay_unconfigured(msg, enc, hexbm, cfg):
+    from cardutil import iso8583
+    cfgs = _cfg(cfg)
+    try:
+        got = iso8583.dumps(dict(msg), encoding=enc, hex_bitmap=hexbm, iso_config=cfgs if isinstance(cfg, dict) else None)
+    except Exception as e:
+        return False, 'refused (%s)' % type(e).__name__, None
+    try:
+        d, _ = ref.ref_decode(got, cfgs, enc, hexbm)
+    except ref.RefError as e:
+        return True, 'returned a message whose bitmap and data disagree: %s' % e, 'C02/unconfigured'
+    if d.get('DE2') != msg['DE2'] or d.get('DE3') != msg['DE3']:
+        return True, 'configured elements changed', 'C02/unconfigured'
+    return False, 'ok', None
